@@ -834,7 +834,15 @@ def reindex_(
         # all groups were NaN
         shape = array.shape[:-1] + (len(to),)
         if array_type in (ReindexArrayType.AUTO, ReindexArrayType.NUMPY):
-            reindexed = np.full(shape, fill_value, dtype=array.dtype)
+            if is_duck_dask_array(array):
+                # stay lazy: a chunked input must give a chunked result
+                import dask.array
+
+                reindexed = dask.array.full(
+                    shape, fill_value, dtype=array.dtype, chunks=array.chunks[:-1] + ((len(to),),)
+                )
+            else:
+                reindexed = np.full(shape, fill_value, dtype=array.dtype)
         else:
             raise NotImplementedError
         return reindexed
